@@ -589,7 +589,7 @@ func capErr(c *hand.Captured) error {
 	return c.Err
 }
 
-func TestPropHandler(t *testing.T) { hx.Check(t, 4000, genCase, runCase) }
+func TestPropHandler(t *testing.T) { hx.Check(t, 12000, genCase, runCase) }
 
 func TestReplay(t *testing.T) { hx.Replay(t, "TestPropHandler", 3, runCase) }
 
